@@ -45,10 +45,12 @@ META = {
 }
 
 FRESH = "zq_fresh"
+HINTS = {"Int": "Int", "Bool": "Bool", "Str": "String", "List": "List<Int>", "Opt": "Option<Int>", "Tup": "(Int, Int)"}
 POOL = ["a", "b", "c", "x", "y"]
 INT_OPS = ["+", "-", "*"]
 CMP_OPS = ["<", ">", "<=", ">=", "==", "!="]
-ALL_FEATURES = frozenset(["assign", "update", "while", "for", "match", "closure", "fundef", "str", "list", "dbg", "nonascii", "print"])
+ALL_FEATURES = frozenset(["assign", "update", "while", "for", "match", "closure", "fundef", "str", "list", "dbg", "nonascii", "print",
+                          "hint", "annot", "tuple", "shadowbias"])
 MODEL_FEATURES = frozenset(["assign", "while", "closure", "fundef", "print", "dbg"])
 
 
@@ -66,6 +68,7 @@ class Gen:
         self.funs = []                  # (name, [ptys], ret, uid, pure)
         self.nloop = 0
         self.pure_ctx = []
+        self.prefer = None              # a variable name that uses are biased towards (shadowing scenarios)
 
     def nid(self):
         self.uid += 1
@@ -102,7 +105,17 @@ class Gen:
             ts.append("Opt")
         if "closure" in self.f:
             ts.append("Fn")
+        if "tuple" in self.f:
+            ts.append("Tup")
         return ts
+
+    def shadow_name(self, ty):
+        """With feature shadowbias: the name of a visible variable of type ty (the new binder will shadow it), else None."""
+        if "shadowbias" in self.f and self.r.random() < 0.4:
+            vs = [n for n, u in self.visible(ty) if not n.startswith("i_")]
+            if vs:
+                return self.pick(vs)
+        return None
 
     def bname(self):
         """Name for a new binder: mostly from the small pool (so shadowing and unrelated namesakes are common)."""
@@ -118,6 +131,10 @@ class Gen:
         r = self.r
         vs = self.visible(ty)
         leaf = d >= 3 or r.random() < 0.3
+        if self.prefer is not None:
+            pv = [(n, u) for n, u in vs if n == self.prefer]
+            if pv and r.random() < 0.6:
+                return self.var(*pv[0])
         if vs and r.random() < (0.7 if leaf else 0.25):
             return self.var(*self.pick(vs))
         if ty == "Int":
@@ -165,6 +182,9 @@ class Gen:
             return {"k": "some", "e": self.expr("Int", d + 1)}
         if ty == "Fn":
             return self.closure(d)
+        if ty == "Tup":
+            return {"k": "tuple", "es": [self.call_or_atom("Int", d + 1) if r.random() < 0.5 else self.expr("Int", d + 2),
+                                         self.call_or_atom("Int", d + 1) if r.random() < 0.5 else self.expr("Int", d + 2)]}
         raise ValueError(ty)
 
     def paren_if_bin(self, e):
@@ -215,11 +235,16 @@ class Gen:
         return out
 
     def match_expr(self, d):
-        s = self.expr("Opt", d + 1)
-        n = self.bname()
+        sh = self.shadow_name("Int")
+        # when the pattern shadows an outer variable, often take the None arm (which sees the OUTER variable) and
+        # keep that variable out of the scrutinee
+        s = {"k": "none"} if (sh and self.r.random() < 0.5) else self.expr("Opt", d + 1)
+        n = sh or self.bname()
         u = self.nid()
         some = self.block_value("Int", d + 1, {n: ("Int", u)})
-        none = self.block_value("Int", d + 1)
+        saved, self.prefer = self.prefer, (sh or self.prefer)
+        none = self.block_value("Int", d + 1)       # may use the OUTER variable that the Some pattern shadows
+        self.prefer = saved
         braces = self.r.random() < 0.7 or len(some) > 1 or len(none) > 1
         return {"k": "match", "s": s, "n": n, "id": u, "some": some, "none": none, "braces": braces}
 
@@ -244,13 +269,19 @@ class Gen:
     # ---- statements
     def let_stmt(self, d, ty=None):
         ty = ty or self.pick(self.types())
-        e = self.expr(ty, d)
-        n = self.bname()
+        sh = self.shadow_name(ty) if ty in ("Int", "Bool", "Str") else None
+        saved, self.prefer = self.prefer, (sh or self.prefer)
+        e = self.expr(ty, d)                         # `let a = a + 1`: the right-hand side sees the OUTER a
+        self.prefer = saved
+        n = sh or self.bname()
         u = self.nid()
         if ty == "Fn":
             self.clo_pure[u] = e.get("pure", False) if e["k"] == "fun" else self.clo_pure.get(e.get("b"), False)
         self.scopes[-1][n] = (ty, u)
-        return {"k": "let", "n": n, "id": u, "e": e}
+        hint = None
+        if "hint" in self.f and ty in HINTS and self.r.random() < 0.35:
+            hint = HINTS[ty]
+        return {"k": "let", "n": n, "id": u, "e": e, "hint": hint}
 
     def block(self, n, d):
         self.scopes.append({})
@@ -304,12 +335,15 @@ class Gen:
             return {"k": "for", "n": n, "id": u, "it": it, "b": body}
         if k == 9 and nested and "match" in self.f:
             s = self.expr("Opt", 1)
-            n = self.bname()
+            sh = self.shadow_name("Int")
+            n = sh or self.bname()
             u = self.nid()
             self.scopes.append({n: ("Int", u)})
             some = self.block(r.randrange(1, 3), d + 1)
             self.scopes.pop()
+            saved, self.prefer = self.prefer, (sh or self.prefer)
             none = self.block(1, d + 1)
+            self.prefer = saved
             return {"k": "match", "s": s, "n": n, "id": u, "some": some, "none": none, "braces": True, "stmt": True}
         if k == 10 and "closure" in self.f and nested:
             return self.let_stmt(1, "Fn")
@@ -348,7 +382,10 @@ class Gen:
             self.f = saved_f
         self.scopes = saved
         self.funs.append((name, ptys, ret, u, pure))
-        return {"k": "fundef", "n": name, "id": u, "ps": ps, "body": body, "pure": pure}
+        ann = None
+        if "annot" in self.f and self.r.random() < 0.5:
+            ann = ([HINTS[t] for t in ptys], HINTS[ret])
+        return {"k": "fundef", "n": name, "id": u, "ps": ps, "body": body, "pure": pure, "ann": ann}
 
     def program(self):
         items = []
@@ -505,6 +542,8 @@ class Printer:
         elif k == "let":
             self.w("let ")
             self.name(e["n"], e["id"])
+            if e.get("hint"):
+                self.w(": " + e["hint"])
             self.w(" = ")
             self.expr(e["e"], ind)
         elif k == "assign":
@@ -527,6 +566,13 @@ class Printer:
                     self.w(", ")
                 self.expr(a, ind)
             self.w("]")
+        elif k == "tuple":
+            self.w("(")
+            for i, a in enumerate(e["es"]):
+                if i:
+                    self.w(", ")
+                self.expr(a, ind)
+            self.w(")")
         elif k == "some":
             self.w("Some(")
             self.expr(e["e"], ind)
@@ -537,11 +583,14 @@ class Printer:
             self.w("fun ")
             self.name(e["n"], e["id"])
             self.w("(")
+            ann = e.get("ann")
             for i, (n, u) in enumerate(e["ps"]):
                 if i:
                     self.w(", ")
                 self.name(n, u)
-            self.w(") ")
+                if ann:
+                    self.w(": " + ann[0][i])
+            self.w("): %s " % ann[1] if ann else ") ")
             e["blk"] = self.block(e["body"], ind)
             e["sp"] = (st, self.n)
             return
@@ -626,7 +675,7 @@ class Resolver:
             self.expr(e["f"])
             for a in e["args"]:
                 self.expr(a)
-        elif k == "list":
+        elif k in ("list", "tuple"):
             for a in e["es"]:
                 self.expr(a)
         elif k == "fun":
@@ -1101,7 +1150,7 @@ def run(ctx):
     if not exe:
         return
     rng = ctx.rng
-    n = 400 if ctx.thorough else 20
+    n = 400 if ctx.thorough else 50
     progs = [gen_program(rng, size=6) for _ in range(n)]
     search_rename(ctx, exe, progs, "full")
     model_part(ctx, exe, rng)
